@@ -35,6 +35,9 @@ def run(ctx):
     lock_rule(ctx)
     prog = mirq.Program(ctx.facts.mir())
     claim_rule(ctx, prog)
+    from synq import Syn as _Syn
+    from props.c05 import clean_rule
+    clean_rule(ctx, _Syn(ctx.facts.syn()), rid="C20.CLEAN")   # a reader that exports a text elsewhere must not clear the flag another reader's serialisation depends on
     ctx.not_decided += ["the interleavings themselves (the analysis decides which shared-reference entry points can write shared state at all; an entry that writes is reported, one that does not cannot interfere)",
                         "data races inside dependencies (rayon, std) - trusted"]
     ctx.assumptions += ["no unsafe code hands out aliased mutable references (C20.INV lists unsafe functions)", "rustc's borrow rules: without interior mutability a shared reference cannot write"]
